@@ -280,7 +280,7 @@ func genStructFile(rng *rand.Rand) string {
 	var sb strings.Builder
 	sb.WriteString("package gorules\n\nimport \"github.com/quasilyte/go-ruleguard/dsl\"\n")
 	// custom filter functions need the packages the bytecode compiler knows; importing them costs a type check from source
-	withFlt := rng.Intn(5) == 0
+	withFlt := rng.Intn(10) == 0
 	if withFlt {
 		sb.WriteString("import (\n\t\"fmt\"\n\t\"strconv\"\n\t\"strings\"\n\t\"github.com/quasilyte/go-ruleguard/dsl/types\"\n)\n\nvar _ = fmt.Sprint\nvar _ = strconv.Itoa\nvar _ = strings.Contains\nvar _ types.Type\n")
 	}
